@@ -822,6 +822,10 @@ func (i *InsertStatement) SQL() string {
 		sb.WriteString(onConflictSQL(i.OnConflict))
 	}
 
+	if i.OnDuplicateKey != nil {
+		sb.WriteString(onDuplicateKeySQL(i.OnDuplicateKey))
+	}
+
 	if len(i.Returning) > 0 {
 		sb.WriteString(" RETURNING ")
 		sb.WriteString(exprListSQL(i.Returning))
@@ -1602,6 +1606,14 @@ func onConflictSQL(oc *OnConflict) string {
 		}
 	}
 	return sb.String()
+}
+
+func onDuplicateKeySQL(u *UpsertClause) string {
+	upds := make([]string, len(u.Updates))
+	for i, upd := range u.Updates {
+		upds[i] = exprSQL(upd.Column) + " = " + exprSQL(upd.Value)
+	}
+	return " ON DUPLICATE KEY UPDATE " + strings.Join(upds, ", ")
 }
 
 func columnDefSQL(c *ColumnDef) string {
